@@ -13,6 +13,7 @@
     code as it stood before (no size check before the unchecked cast). *)
 
 From Coq Require Import NArith PeanoNat List Bool.
+From Coq.Strings Require Import Byte.
 From DC Require Import Crc.
 Import ListNotations.
 Open Scope N_scope.
@@ -155,9 +156,40 @@ Section Rpc.
     let '(seen, resp) := server (encode cm m) in (seen, client resp).
 End Rpc.
 
-(** [Status]: an error code and a message. *)
-Record status_t : Type := { st_code : N; st_message : list N }.
+(** [Status]: an error code ([ErrorCode]) and a message (a byte string). *)
+Inductive error_code : Type :=
+| ServiceUnavailable | InternalError | InvalidPayload | ConnectionError | Timeout.
+
+Record status_t : Type := { st_code : error_code; st_message : list Byte.byte }.
 
 (** Result of [view_using] as the executors print it. *)
 Definition using_ok (fixed : nat) (bs : list N) : bool :=
   match view_using fixed bs with Ok _ => true | _ => false end.
+
+(** ** Executable instances of one exchange (run by the correspondence check)
+
+    The message is the archived body itself ([raw_codec]: the identity), the status
+    is a code and a message laid out as [code :: message]. *)
+Definition raw_codec (fixed : nat) : codec (list N) :=
+  {| fixed := fixed; archive := fun b => b; view := fun b => Some b |}.
+
+Definition raw_status_codec : codec (N * list N) :=
+  {| fixed := 1;
+     archive := fun s => fst s :: snd s;
+     view := fun bs => match bs with c :: m => Some (c, m) | [] => None end |}.
+
+Definition raw_invalid : N * list N := (2, []).
+
+(** A request frame [req] sent to an echoing handler: what the handler saw and what
+    the client got back. *)
+Definition model_echo (fixed : nat) (req : list N)
+  : list (list N) * ((list N) + (N * list N)) :=
+  let '(seen, resp) :=
+    server (raw_codec fixed) (raw_codec fixed) raw_status_codec raw_invalid
+           (fun b => inl b) req in
+  (seen, client (raw_codec fixed) raw_status_codec raw_invalid resp).
+
+(** A handler that fails with status [(code, message)]: what the client observes. *)
+Definition model_status (code : N) (message : list N) : (list N) + (N * list N) :=
+  snd (call (raw_codec 0) (raw_codec 0) raw_status_codec raw_invalid
+            (fun _ => inr (code, message)) []).
